@@ -1,4 +1,5 @@
 import Dtr.Proofs.RowInv
+import Dtr.Proofs.AfterError
 import Dtr.Proofs.ParserWF
 import Dtr.Props.C12
 import Dtr.Props.C11
@@ -18,8 +19,11 @@ import Dtr.Props.C15
 * `C10_named_conditions`: division by zero, an unassigned variable, an empty `random` range and an
   unimplemented function are `err` results of evaluation, i.e. error items.
 
-The caller-stops-at-the-first-error-item reading of the property: the invariant is re-established
-after every row item and after the end, which is all a run needs.  Termination is not claimed: a
+`C10_run_no_panic` is the caller-stops-at-the-first-error-item reading: the invariant is re-established
+after every row item and after the end.  `C10_run_no_panic_continued` drops that restriction: with the
+state the code is really left in behind an error item (`Model/AfterError`: `RowIt.nextC`), the invariant
+holds behind *every* item, so a caller may go on calling `next()` after any error item — evaluation
+error, driver error, malformed answer — for ever, without a panic.  Termination is not claimed: a
 `while` that never yields makes `next()` loop in code and model alike (`fuel` in the model).
 -/
 namespace Dtr
@@ -242,6 +246,89 @@ theorem C10_run_no_panic {δ : Type} (tc : TestCase) (w : Nat) (hw : tc.WF w) (d
       cases i with
       | err e => trivial
       | row r => rw [hx] at hn; exact C10_run_no_panic tc w hw drv fuel n s' d' hn
+
+/-- a run of `n` calls of `next()` that goes on behind *every* item — error items included — has no panic -/
+def NoPanicRunC {δ : Type} (tc : TestCase) (drv : Driver δ) (fuel : Nat) : Nat → RowIt → δ → Prop
+  | 0, _, _ => True
+  | n+1, s, d =>
+    match RowIt.nextC tc drv fuel s d with
+    | .panic _ _ => False
+    | .item _ s' d' _ => NoPanicRunC tc drv fuel n s' d'
+    | .none s' d' => NoPanicRunC tc drv fuel n s' d'
+    | .fuel => True
+
+/-- **One `next()` never panics and re-establishes the invariant behind whatever it returns** — a row, the
+end, or an error item of any kind (the state behind an error item is the one the code is left in). -/
+theorem C10_next_no_panic_any_item {δ : Type} (tc : TestCase) (w : Nat) (hw : tc.WF w) (drv : Driver δ) (fuel : Nat)
+    (s : RowIt) (d : δ) (h : RInv tc w s) :
+    (∀ m calls, RowIt.nextC tc drv fuel s d ≠ .panic m calls) ∧
+    (∀ i s' d' calls, RowIt.nextC tc drv fuel s d = .item i s' d' calls → RInv tc w s') ∧
+    (∀ s' d', RowIt.nextC tc drv fuel s d = .none s' d' → RInv tc w s') := by
+  have hn := nextC_inv tc w hw drv fuel s d h
+  refine ⟨?_, ?_, ?_⟩
+  · intro m calls hm; rw [hm] at hn; exact hn
+  · intro i s' d' calls hr; rw [hr] at hn; exact hn
+  · intro s' d' hr; rw [hr] at hn; exact hn
+
+/-- **A run that is continued behind error items never panics**: for every number of `next()` calls, every
+driver and every history, whatever items — rows or errors — come in between. -/
+theorem C10_run_no_panic_continued {δ : Type} (tc : TestCase) (w : Nat) (hw : tc.WF w) (drv : Driver δ) (fuel : Nat) :
+    ∀ (n : Nat) (s : RowIt) (d : δ), RInv tc w s → NoPanicRunC tc drv fuel n s d
+  | 0, _, _, _ => trivial
+  | n+1, s, d, h => by
+    have hn := nextC_inv tc w hw drv fuel s d h
+    simp only [NoPanicRunC]
+    cases hx : RowIt.nextC tc drv fuel s d with
+    | panic m c => rw [hx] at hn; exact hn
+    | fuel => trivial
+    | none s' d' => rw [hx] at hn; exact C10_run_no_panic_continued tc w hw drv fuel n s' d' hn
+    | item i s' d' c => rw [hx] at hn; exact C10_run_no_panic_continued tc w hw drv fuel n s' d' hn
+
+/-- the continued run shows the caller and the device what `next` shows them: same item, same driver
+state, same calls; and where the item is a row or the end, the same iterator state -/
+theorem C10_continued_same_items {δ : Type} (tc : TestCase) (drv : Driver δ) (fuel : Nat) (s : RowIt) (d : δ) :
+    (RowIt.nextC tc drv fuel s d).obs = (RowIt.next tc drv fuel s d).obs ∧
+    (∀ r s' d' calls, RowIt.next tc drv fuel s d = .item (.row r) s' d' calls →
+      RowIt.nextC tc drv fuel s d = .item (.row r) s' d' calls) ∧
+    (∀ s' d', RowIt.next tc drv fuel s d = .none s' d' → RowIt.nextC tc drv fuel s d = .none s' d') :=
+  ⟨nextC_obs tc drv fuel s d, (nextC_eq_next_of_row tc drv fuel s d).1, (nextC_eq_next_of_row tc drv fuel s d).2⟩
+
+/-- **What an evaluation error leaves behind**: a `let`, a data row or a loop header that cannot be evaluated is
+skipped — the statement iterator stands behind it, in the same block, no scope opened —, the variables are
+untouched, and the row stack and the remembered previous row are as before. -/
+theorem C10_failed_statement_is_skipped (s : Stmt) (rest : List Stmt) (c : Ctx) (e : ExprErr)
+    (h : step (.mk (s :: rest) .iterate) c = .err e) :
+    (stepPost (.mk (s :: rest) .iterate) c).1 = .mk rest .iterate ∧
+    (stepPost (.mk (s :: rest) .iterate) c).2.vars = c.vars ∧
+    (stepPost (.mk (s :: rest) .iterate) c).2.outs = c.outs := by
+  cases s with
+  | letS name ex => exact ⟨rfl, rfl, rfl⟩
+  | row data line => exact ⟨rfl, (rowAfter_fields data c).1, (rowAfter_fields data c).2.2⟩
+  | loop var max body => exact ⟨rfl, rfl, rfl⟩
+  | resetRandom => simp [step] at h
+  | «while» cond body => simp [step] at h
+
+/-- a `while` whose condition cannot be evaluated stays where it is: the condition is evaluated again by the
+next call -/
+theorem C10_failed_while_is_retried (rest : List Stmt) (ws : WhileState) (c : Ctx) :
+    (stepPost (.mk rest (.startWhile ws)) c).1 = .mk rest (.startWhile ws) := rfl
+
+/-- behind an evaluation error only the statement iterator and the generator have moved -/
+theorem C10_eval_error_keeps_rows (fuel : Nat) (s : RowIt) :
+    (s.afterEvalErr fuel).cache = s.cache ∧ (s.afterEvalErr fuel).prev = s.prev ∧
+    (s.afterEvalErr fuel).outIdx = s.outIdx ∧ (s.afterEvalErr fuel).numOut = s.numOut := ⟨rfl, rfl, rfl, rfl⟩
+
+/-- **End to end, continued**: whatever `ParsedTestCase::parse` and `with_signals` accept can be constructed and
+iterated for any number of steps against any driver, going on behind every error item, without a panic. -/
+theorem C10_accepted_never_panics_continued {δ : Type} (src : Str) (p : Parsed) (sigs : List Signal) (tc : TestCase)
+    (hp : parseTest src = .ok p) (hb : withSignals p sigs = .ok tc)
+    (hsv : ∀ sg ∈ sigs, ∀ e, sg.typ = .virt e → e.WF)
+    (drv : Driver δ) (d : δ) (rng : Rng) (fuel : Nat) :
+    ∀ s d' log, tryNew tc drv d rng = .ok s d' log → ∀ n, NoPanicRunC tc drv fuel n s d' := by
+  have hw := C10_accepted_wf src p sigs tc hp hb hsv
+  have hc := C10_ctor_no_panic tc _ hw drv d rng
+  intro s d' log hs n
+  exact C10_run_no_panic_continued tc _ hw drv fuel n s d' (hc.2 s d' log hs)
 
 /-- **`try_iter_static` never panics** on a well-formed test: its `expect("There shouldn't be any
 possible errors here")` is justified. -/
